@@ -119,6 +119,10 @@ static void vi_drawfix(int r1, int r2, int n, int preview)
 	int i;
 	if (preview && r1 < xtop)
 		xtop = r1;
+	if (r1 < xtop && r2 >= xtop) {	/* the region starts above the window */
+		n = MAX(0, n - (xtop - r1));
+		r1 = xtop;
+	}
 	r1 = MIN(MAX(r1, xtop), xtop + xrows - 1);
 	r2 = MIN(MAX(r2, xtop), xtop + xrows - 1);
 	term_record();
